@@ -21,6 +21,74 @@ pub static PAGE_ALLOC_FAIL_FIRED: AtomicU64 = AtomicU64::new(0);
 /// How many 4096-aligned allocations were seen at all.
 pub static PAGE_ALLOCS_SEEN: AtomicU64 = AtomicU64::new(0);
 
+// Byte buffers allocated while `GUARD_BYTES` is on (the harness switches it on around the
+// construction / re-configuration of a fixed-metadata VM) get a canary-filled slack behind them,
+// so that compiled code writing beyond the VM's private metadata buffer lands in the slack — a
+// deterministic, attributable observation — instead of trampling the worker's heap.
+pub const SLACK: usize = 40960;
+const CANARY: u8 = 0xC5;
+const MAXG: usize = 64;
+static GUARD_BYTES: AtomicU64 = AtomicU64::new(0);
+
+struct GuardTable(std::cell::UnsafeCell<([(usize, usize); MAXG], usize)>);
+unsafe impl Sync for GuardTable {}
+static GUARDED: GuardTable = GuardTable(std::cell::UnsafeCell::new(([(0, 0); MAXG], 0)));
+
+unsafe fn guarded_lookup(ptr: *mut u8, remove: bool) -> Option<usize> {
+    let t = &mut *GUARDED.0.get();
+    for i in 0..t.1 {
+        if t.0[i].0 == ptr as usize {
+            let size = t.0[i].1;
+            if remove {
+                t.0[i] = t.0[t.1 - 1];
+                t.1 -= 1;
+            }
+            return Some(size);
+        }
+    }
+    None
+}
+
+unsafe fn guarded_alloc(size: usize, zeroed: bool) -> *mut u8 {
+    let t = &mut *GUARDED.0.get();
+    let l = Layout::from_size_align_unchecked(size + SLACK, 1);
+    let p = if zeroed { System.alloc_zeroed(l) } else { System.alloc(l) };
+    if !p.is_null() {
+        std::ptr::write_bytes(p.add(size), CANARY, SLACK);
+        t.0[t.1] = (p as usize, size);
+        t.1 += 1;
+    }
+    p
+}
+
+fn want_guard(layout: &Layout) -> bool {
+    layout.align() == 1 && layout.size() > 0 && GUARD_BYTES.load(Ordering::Relaxed) == 1 && unsafe { (*GUARDED.0.get()).1 < MAXG }
+}
+
+pub fn guard_byte_allocs(on: bool) {
+    GUARD_BYTES.store(on as u64, Ordering::Relaxed);
+}
+
+/// Was anything written behind a guarded byte buffer? Returns (buffer size, distance of the
+/// first damaged byte from the start of the buffer) and repairs the canary.
+pub fn check_canaries() -> Option<(usize, usize)> {
+    unsafe {
+        let t = &mut *GUARDED.0.get();
+        let mut found = None;
+        for i in 0..t.1 {
+            let (p, size) = t.0[i];
+            let slack = std::slice::from_raw_parts_mut((p as *mut u8).add(size), SLACK);
+            if let Some(k) = slack.iter().position(|b| *b != CANARY) {
+                if found.is_none() {
+                    found = Some((size, size + k));
+                }
+                slack.fill(CANARY);
+            }
+        }
+        found
+    }
+}
+
 unsafe impl GlobalAlloc for FaultAlloc {
     unsafe fn alloc(&self, layout: Layout) -> *mut u8 {
         if layout.align() == 4096 {
@@ -30,15 +98,35 @@ unsafe impl GlobalAlloc for FaultAlloc {
                 return std::ptr::null_mut();
             }
         }
+        if want_guard(&layout) {
+            return guarded_alloc(layout.size(), false);
+        }
         System.alloc(layout)
     }
     unsafe fn dealloc(&self, ptr: *mut u8, layout: Layout) {
+        if layout.align() == 1 {
+            if let Some(size) = guarded_lookup(ptr, true) {
+                return System.dealloc(ptr, Layout::from_size_align_unchecked(size + SLACK, 1));
+            }
+        }
         System.dealloc(ptr, layout)
     }
     unsafe fn alloc_zeroed(&self, layout: Layout) -> *mut u8 {
+        if want_guard(&layout) {
+            return guarded_alloc(layout.size(), true);
+        }
         System.alloc_zeroed(layout)
     }
     unsafe fn realloc(&self, ptr: *mut u8, layout: Layout, new_size: usize) -> *mut u8 {
+        if layout.align() == 1 && guarded_lookup(ptr, false).is_some() {
+            let new_layout = Layout::from_size_align_unchecked(new_size, 1);
+            let np = self.alloc(new_layout);
+            if !np.is_null() {
+                std::ptr::copy_nonoverlapping(ptr, np, layout.size().min(new_size));
+                self.dealloc(ptr, layout);
+            }
+            return np;
+        }
         System.realloc(ptr, layout, new_size)
     }
 }
@@ -138,7 +226,7 @@ pub fn install_signal_handlers() {
         );
         let ss = libc::stack_t { ss_sp: stack, ss_flags: 0, ss_size: size };
         libc::sigaltstack(&ss, std::ptr::null_mut());
-        for sig in [libc::SIGILL, libc::SIGSEGV, libc::SIGBUS, libc::SIGFPE, libc::SIGTRAP] {
+        for sig in [libc::SIGILL, libc::SIGSEGV, libc::SIGBUS, libc::SIGFPE, libc::SIGTRAP, libc::SIGABRT] {
             let mut sa: libc::sigaction = std::mem::zeroed();
             sa.sa_sigaction = on_fatal as usize;
             sa.sa_flags = libc::SA_SIGINFO | libc::SA_ONSTACK | libc::SA_NODEFER;
